@@ -213,6 +213,7 @@ impl Property for C05 {
                 env: None,
                 real: None,
                 note: if long { "long".into() } else { "short".into() },
+                decoy_in_cwd: false,
             },
             plans,
         }
@@ -635,6 +636,7 @@ fn sweep_scenario(mut i: u64) -> Sc {
             env: None,
             real: None,
             note: "sweep".into(),
+            decoy_in_cwd: false,
         },
         plans: vec![vec![], plan, plan2],
     }
